@@ -49,6 +49,19 @@ class ScriptedRandom(object):
         random.random, random.randint = self._saved
 
 
+def objectify(v):
+    """records of a counterexample become attribute-style objects (so that spec text like
+    `self.tag` evaluates natively); the contract's `native` builds the real object from them"""
+    import types
+    if isinstance(v, dict) and "__class__" in v:
+        return types.SimpleNamespace(**{k: objectify(x) for k, x in v.items() if k != "__class__"})
+    if isinstance(v, list):
+        return [objectify(x) for x in v]
+    if isinstance(v, tuple):
+        return tuple(objectify(x) for x in v)
+    return v
+
+
 def default_native(con, inputs):
     """import the real module and call the function"""
     rel, qual = con.target.split("::")
@@ -69,14 +82,17 @@ def run_replay(data):
     importlib.import_module(data["spec_module"])
     con = None
     for c in S.REGISTRY:
-        if c.target == data["function"]:
+        if c.name == data["function"]:
             con = c
     out = {"function": data["function"], "obligation": data["obligation"]}
     if con is None:
         out["error"] = "no contract"
         return out
     inputs = unjson(data.get("inputs") or {})
-    inputs = {k: v for k, v in inputs.items() if not k.startswith("_")}
+    inputs = {k: objectify(v) for k, v in inputs.items() if not k.startswith("_") and not (isinstance(v, str) and v.startswith("ClassRef"))}
+    for k, sh in con.params.items():
+        if type(sh).__name__ == "TConst" and isinstance(sh.value, str) and sh.value.startswith("class:"):
+            inputs.pop(k, None)
     draws = [tuple(d) for d in unjson(data.get("rand") or [])]
     cls = con.cls
     req = cls.__dict__.get("requires")
